@@ -101,6 +101,24 @@ CHECKS = {
              'allowed by the duplicate-free semantics.',
         note='The raise+rollback of a duplicate result is the mechanism, '
              'not a violation; atomic transactions.'),
+    'C07': dict(
+        level='model_checking', design='3/C07',
+        technique='explicit-state model checking of the implementation: '
+                  'DFS over item completion orders and interleavings with '
+                  'the keyed completion jobs x item counts x concurrency x '
+                  'outcomes x retry x rerun; step and terminal oracles',
+        text='with-items tasks over 0..3 items (4 thorough), concurrency '
+             'absent / 1 / 2 / n+1 / expression, every per-item outcome '
+             '(success, error, cancel), action and sub-workflow items, '
+             'retry and rerun with reset on/off: in every state <= '
+             'concurrency items run, each index has one execution per '
+             'attempt, the task is not final while an item is unfinished; '
+             'at the end the state rule holds, results are in item order, '
+             'a successor sees that list, a partial rerun re-executes only '
+             'failed items.',
+        note='Named lock of on_action_complete not exercised (atomic '
+             'transactions); engine-level rerun of CANCELLED tasks '
+             'included.'),
     'C08': dict(
         level='model_checking', design='3/C08',
         technique='explicit-state model checking of the implementation: '
